@@ -17,7 +17,7 @@ RULE = ("binnify: every chromosome-size table with 1..3 chromosomes of length 1.
         "encodings, oracle 'reported b => every bin is [k*b, min((k+1)*b, length))'; end to end through "
         "create_cooler/Cooler.binsize/info/chromsizes, parse_bins and `cooler makebins`. Non-trivial: more than one "
         "bin in the table / width smaller than some chromosome. Distinct by construction.")
-EXTRA_LEGS = 'binnify-widths: every width 1..512 (thorough 4096) x lengths m*w-1, m*w, m*w+1 for m in {1,2,7,40}.'
+EXTRA_LEGS = 'binnify-widths: every width 1..512 (thorough 4096) x lengths m*w-1, m*w, m*w+1 for m in {1,2,7,40}.' + ' inference leg also with row labels that restart per chromosome, are all equal, or are reversed.'
 BOUNDS = {"quick": "binnify L=8 (584 size tables x 9 widths) + large lengths; BT(3,5,W): 3369 tables; end-to-end on BTrep(3,5)",
           "thorough": "binnify L=12 (1884 size tables x 13 widths); BT(3,7,W): 66066 tables; end-to-end on BTrep(3,6) + all of BT(3,4,W)"}
 ASSUMPTIONS = ["bin tables given to the inference are valid: contiguous from 0 within each chromosome, grouped by chromosome",
